@@ -13,16 +13,18 @@ Definition bytes_of_str (s : str) : list N := map N_of_ascii s.
 Definition as_str (s : sx) : option str := option_map str_of_bytes (as_bytes s).
 Definition sstr (s : str) : sx := SB (bytes_of_str s).
 
-Definition oracle := list (str * (option str * option str * option str * option str * option str * option str)).
+Definition oracle := list (str * (option str * option str * option str * option str * option str * option str * option str)).
 Definition o_get (o : oracle) (x : str) :=
-  match alist_get x o with Some r => r | None => (None, None, None, None, None, None) end.
-Definition o_float64 (o : oracle) x := match o_get o x with (a, _, _, _, _, _) => a end.
-Definition o_float32 (o : oracle) x := match o_get o x with (_, _, _, _, _, a) => a end.
+  match alist_get x o with Some r => r | None => (None, None, None, None, None, None, None) end.
+Definition o_float64 (o : oracle) x := match o_get o x with (a, _, _, _, _, _, _) => a end.
+Definition o_float32 (o : oracle) x := match o_get o x with (_, _, _, _, _, a, _) => a end.
 Definition o_float (o : oracle) (single : bool) x := if single then o_float32 o x else o_float64 o x.
-Definition o_tnp (o : oracle) x := match o_get o x with (_, a, _, _, _, _) => a end.
-Definition o_tfmt (o : oracle) x := match o_get o x with (_, _, a, _, _, _) => a end.
-Definition o_tpd (o : oracle) x := match o_get o x with (_, _, _, a, _, _) => a end.
-Definition o_delta (o : oracle) x := match o_get o x with (_, _, _, _, a, _) => a end.
+Definition o_tnp0 (o : oracle) x := match o_get o x with (_, a, _, _, _, _, _) => a end.
+Definition o_ttz (o : oracle) x := match o_get o x with (_, _, _, _, _, _, a) => a end.
+Definition o_tnp (o : oracle) (tz : bool) x := if tz then o_ttz o x else o_tnp0 o x.
+Definition o_tfmt (o : oracle) x := match o_get o x with (_, _, a, _, _, _, _) => a end.
+Definition o_tpd (o : oracle) x := match o_get o x with (_, _, _, a, _, _, _) => a end.
+Definition o_delta (o : oracle) x := match o_get o x with (_, _, _, _, a, _, _) => a end.
 
 (* canonical float text: repr, integral values written with all digits and ".0" *)
 Definition xf_eq_Z (f : str) (z : Z) : bool :=
@@ -42,10 +44,10 @@ Definition xshow := show str str str (fun f => f) xshow_time_iso xshow_time_str.
 Definition as_opt_str (s : sx) : option (option str) := as_opt as_str s.
 Definition as_oracle (s : sx) : option oracle :=
   as_list_of (fun e => match e with
-                       | SL [x; a; b; c; d; e'; f32] =>
-                         match as_str x, as_opt_str a, as_opt_str b, as_opt_str c, as_opt_str d, as_opt_str e', as_opt_str f32 with
-                         | Some x, Some a, Some b, Some c, Some d, Some e', Some f32 => Some (x, (a, b, c, d, e', f32))
-                         | _, _, _, _, _, _, _ => None
+                       | SL [x; a; b; c; d; e'; f32; ttz] =>
+                         match as_str x, as_opt_str a, as_opt_str b, as_opt_str c, as_opt_str d, as_opt_str e', as_opt_str f32, as_opt_str ttz with
+                         | Some x, Some a, Some b, Some c, Some d, Some e', Some f32, Some ttz => Some (x, (a, b, c, d, e', f32, ttz))
+                         | _, _, _, _, _, _, _, _ => None
                          end
                        | _ => None
                        end) s.
@@ -86,6 +88,7 @@ Definition as_kind (s : sx) : option kind :=
   | SL [SZ 3%Z; single] => option_map KFloat (as_bool single)
   | SL [SZ 4%Z; ns] => option_map KTime (as_bool ns)
   | SL [SZ 5%Z] => Some KCat
+  | SL [SZ 7%Z] => Some KTimeTz
   | _ => None
   end.
 Definition as_pm (s : sx) : option (list (str * kind)) := as_list_of (as_pair as_str as_kind) s.
